@@ -418,6 +418,7 @@ def r03_5(ctx: Ctx, rep: Report, h: Optional[Func]) -> None:
 def check_subnet_of_shape(ctx: Ctx, rep: Report, f: Func, tops: str, bottoms: str, need_empty_guard: bool = True) -> None:
     cfg = ctx.cfg(f)
     paths = [p for p in function_paths(cfg) if not p.raises]
+    _quantifier_domains(rep, f, tops, bottoms)
     fors = [n for n in cfg.live if n.kind == "for"]
     outer = [n for n in fors if src(n.ast.iter) == bottoms]
     inner = [n for n in fors if src(n.ast.iter) == tops]
@@ -460,6 +461,34 @@ def check_subnet_of_shape(ctx: Ctx, rep: Report, f: Func, tops: str, bottoms: st
         else:
             rep.ok(f"{f.qualname}: {snippet(r.ast)}", "only after the outer loop is exhausted", where=where(f, r.ast))
     _empty_guards(rep, f, paths, tops, bottoms, need_empty_guard)
+
+
+_KEEPS_ELEMENTS = ("list", "tuple", "sorted", "set", "frozenset")
+
+
+def _quantifier_domains(rep: Report, f: Func, tops: str, bottoms: str) -> None:
+    """The lists the cover test quantifies over are the arguments: not re-bound to something else, nothing added or
+    removed (an added top widens the cover, a removed bottom drops an obligation)."""
+    for nm in (tops, bottoms):
+        if nm not in f.params:
+            continue
+        rep.instance()
+        bad = None
+        for n in own_nodes(f.node):
+            if isinstance(n, ast.Name) and n.id == nm and isinstance(n.ctx, (ast.Store, ast.Del)):
+                par = getattr(n, "_parent", None)
+                v = getattr(par, "value", None) if isinstance(par, (ast.Assign, ast.AnnAssign)) else None
+                keeps = isinstance(v, ast.Call) and isinstance(v.func, ast.Name) and v.func.id in _KEEPS_ELEMENTS and len(v.args) == 1 and src(v.args[0]) == nm and not v.keywords
+                if not keeps:
+                    bad = bad or par or n
+            if isinstance(n, ast.Call) and isinstance(n.func, ast.Attribute) and src(n.func.value) == nm and n.func.attr in ("append", "extend", "insert", "remove", "pop", "clear", "add", "discard", "update", "__iadd__"):
+                bad = bad or n
+            if isinstance(n, ast.AugAssign) and src(n.target) == nm:
+                bad = bad or n
+        if bad is not None:
+            rep.violation(f.qualname, snippet(bad), f"the list `{nm}` the cover test quantifies over is changed inside the test: networks that neither entry names decide the answer", where(f, bad), inp="tops [10.0.0.0/25, host 10.0.0.200] would cover 10.0.0.0/24")
+        else:
+            rep.ok(f"{f.qualname}: domain `{nm}`", "the argument itself (at most copied element for element)", where=where(f))
 
 
 def _all_any_form(ctx: Ctx, rep: Report, f: Func, paths, tops: str, bottoms: str) -> bool:
@@ -623,6 +652,10 @@ def run(ctx: Ctx, rep: Report, tier: str) -> None:
     from .c01 import field_isolation
 
     field_isolation(ctx, rep, "R03.8")
+    # R03.9 the sets the cover tests read (ipnets(), ports) are not stale: every memo is reset by every writer
+    from .c05 import memo_rules
+
+    memo_rules(ctx, rep, rid="R03.9")
 
 
 def flags_rule(ctx: Ctx, rep: Report, h: Func) -> None:
